@@ -9,7 +9,7 @@ import math
 from . import pe as P
 from .pe import (Tensor, Obj, Func, ClassRef, Ext, ShapeV, Opaque, C, fr,
                  is_num, mkfloat, is_floaty, PyRaise, FloatTag, Mock, NArr,
-                 NDArr, FormattedNumber)
+                 NDArr, FormattedNumber, NpFloat)
 from .nf import log2_exact
 
 # canonical names -> elementwise unary application name
@@ -441,6 +441,19 @@ def call(pe, name, args, kwargs, node):
     if isinstance(v, Mock) and callable(v.attrs.get("__str__")):
       return v.attrs["__str__"](pe, [], {})
     return py_repr(pe, v)
+  if name == "repr":
+    v = args[0]
+    if isinstance(v, NpFloat):
+      return "np.float64(%s)" % repr(float(v))
+    if isinstance(v, Obj):
+      owner, fn = v.cls.find_method("__repr__")
+      if fn is not None:
+        return pe.call_func(Func(fn, owner.module, [], owner.name +
+                                 ".__repr__", v, owner), [], {})
+      pe.err("repr() of an object without __repr__", node)
+    if isinstance(v, (Tensor, Mock)):
+      pe.err("repr() of %r" % (v,), node)
+    return py_repr(pe, v)
   if name == "abs":
     return unary(pe, "abs", args[0])
   if name in ("max", "min", "np.maximum", "np.minimum", "tf.maximum",
@@ -498,7 +511,9 @@ def call(pe, name, args, kwargs, node):
   if name == "enumerate":
     return [(i, v) for i, v in enumerate(pe.iterate(args[0]))]
   if name == "callable":
-    return isinstance(args[0], (Func, ClassRef, Ext, Obj))
+    return isinstance(args[0], (Func, ClassRef, Ext, Obj)) or (
+        isinstance(args[0], Mock) and "__call__" in args[0].attrs) or \
+        (callable(args[0]) and not isinstance(args[0], Mock))
   if name == "print" or name.startswith("logging.") or \
       name.startswith("absl.logging.") or name.startswith("warnings."):
     return None
